@@ -50,12 +50,13 @@ theorem arr_prefix (f g : Nat → Val) (first len : Nat)
       exact hsuf k hkl (by rw [hj]; omega)
 
 /-- the line of an array port: the current values of the elements `0 … n-1`, where element `n-1` is the last one
-    that differs from its default (constant or preset-dependent) -/
+    that — as the line spells it, option indices as symbols — differs from its default (constant or
+    preset-dependent); everything behind it equals its default -/
 theorem saved_array_value (app : App) (hwf : app.WF) (s : State) (base : Path) (first len : Nat)
     (hi : Item.array base first len ∈ app.walk) (l : Line) (hl : l ∈ app.save s) (ha : l.addr = base) :
     ∃ n, 0 < n ∧ n ≤ len ∧
       l = ⟨base, .arr ((List.range n).map fun k => mapArgVal (app.param (first + k)).kind (s (first + k)))⟩ ∧
-      s (first + (n - 1)) ≠ evalDflt (app.param (first + (n - 1))) s ∧
+      mapArgVal (app.param (first + (n - 1))).kind (s (first + (n - 1))) ≠ evalDflt (app.param (first + (n - 1))) s ∧
       ∀ k, n ≤ k → k < len → s (first + k) = evalDflt (app.param (first + k)) s := by
   obtain ⟨it, hit, hr, hs⟩ := (mem_save_iff app hwf s l).1 hl
   have := saveItem_addr app s it l hs
@@ -68,10 +69,15 @@ theorem saved_array_value (app : App) (hwf : app.WF) (s : State) (base : Path) (
   · cases hs
   · next hne =>
     obtain ⟨n, hn, hpos, hle, hlast, hsuf⟩ :=
-      arr_prefix (fun i => evalDflt (app.param i) s) (fun i => s i) first len hne
+      arr_prefix (fun i => evalDflt (app.param i) s) (fun i => mapArgVal (app.param i).kind (s i)) first len (by
+        intro heq
+        apply hne
+        apply List.map_congr_left
+        intro i hi
+        exact mapArgVal_eq_evalDflt _ s _ ((List.map_inj_left.mp heq) i hi))
     rw [hn, arr_vals_eq (fun i => mapArgVal (app.param i).kind (s i)), Nat.min_eq_left hle,
       ← List.range_eq_range'] at hs
     cases hs
-    exact ⟨n, hpos, hle, rfl, fun h => hlast h.symm, fun k h1 h2 => (hsuf k h1 h2).symm⟩
+    exact ⟨n, hpos, hle, rfl, fun h => hlast h.symm, fun k h1 h2 => (mapArgVal_eq_evalDflt _ s _ (hsuf k h1 h2)).symm⟩
 
 end Rtosc.Save
